@@ -450,7 +450,30 @@ struct Driver {
             int id = pick_id();
             V v = make_value(id);
             unsigned how = (unsigned)rng.below(10);
-            if (how < 7) {
+            if (how < 7 && !t.empty() && rng.chance(1, 6)) {
+                // insert a value that is passed as a reference to an entry stored in the tree itself
+                auto src = t.lower_bound(key_of(v));
+                if (src == t.end()) src = t.begin();
+                // not necessarily the first entry of a run of equivalent keys
+                for (size_t adv = rng.below(4); adv > 0; --adv) { auto nx = src; ++nx; if (nx == t.end()) break; src = nx; }
+                const V copy = *src;
+                trace.push_back("insert(reference to the stored entry " + show(copy) + ")");
+                verif::count("ops_with_argument_inside_the_tree");
+                if constexpr (!is_multi) {
+                    auto rt = t.insert(*src);
+                    auto rm = m.insert(copy);
+                    if (rt.second != rm.second) diff("insert.second", show(copy));
+                    if (!same(*rt.first, V(*rm.first))) diff("insert.first", show(copy));
+                }
+                else {
+                    auto it = t.insert(*src);
+                    m.insert(copy);
+                    if (!same(*it, copy)) diff("insert-result", show(copy) + " -> " + show(*it));
+                    in_run(t, m, it, key_of(copy), "insert-position");
+                }
+                post(w, "insert-aliased");
+            }
+            else if (how < 7) {
                 trace.push_back("insert(" + show(v) + ")");
                 if constexpr (!is_multi) {
                     auto rt = t.insert(v);
@@ -495,15 +518,21 @@ struct Driver {
             unsigned how = (unsigned)rng.below(10);
             int id = pick_id();
             K key = KM::make(id);
+            // one time in four the key argument is a reference to the key stored inside the tree
+            // (s.erase(*s.begin()) style), which the std containers support
+            auto alias_it = t.find(key);
+            const bool alias = alias_it != t.end() && rng.chance(1, 4);
+            const K& karg = alias ? alias_it.key() : key;
+            if (alias) verif::count("ops_with_argument_inside_the_tree");
             if (how < 3) {
-                trace.push_back("erase(key " + std::to_string(id) + ")");
-                size_t nt = t.erase(key), nm = m.erase(key);
+                trace.push_back(std::string("erase(key ") + std::to_string(id) + (alias ? ", passed as a reference into the tree)" : ")"));
+                size_t nt = t.erase(karg), nm = m.erase(key);
                 if (nt != nm) diff("erase(key)", "tlx " + std::to_string(nt) + " std " + std::to_string(nm));
                 post(w, "erase-key");
             }
             else if (how < 6) {
-                trace.push_back("erase_one(" + std::to_string(id) + ")");
-                bool bt = t.erase_one(key);
+                trace.push_back(std::string("erase_one(") + std::to_string(id) + (alias ? ", passed as a reference into the tree)" : ")"));
+                bool bt = t.erase_one(karg);
                 bool bm = cm.find(key) != cm.end();
                 if (bt != bm) diff("erase_one", std::to_string(id));
                 if (bm) resync_after_single_erase(t, m, key);
